@@ -500,6 +500,10 @@ func run(tier, unit string, r *vlib.Rec) {
 				r.Sample(map[string]string{"tree": t.text()})
 			}
 		}
+	case "wide":
+		runWide(r)
+	case "kinds":
+		runKinds(r, lo, hi, n)
 	case "pairs": // all ordered pairs of trees with exactly n and m<=n nodes over the halved alphabet
 		var trees []Tree
 		for m := 1; m <= n; m++ {
@@ -543,6 +547,108 @@ func run(tier, unit string, r *vlib.Rec) {
 	}
 }
 
+// ---- wide sibling lists (parametric, not a space): W distinct plain children followed by duplicates
+func wideText(w int, tail []string) string {
+	var sb strings.Builder
+	sb.WriteString("0 NOTE root\n")
+	for i := 0; i < w; i++ {
+		fmt.Fprintf(&sb, "1 NOTE v%d\n", i)
+	}
+	for _, t := range tail {
+		sb.WriteString("1 " + t + "\n")
+	}
+	return sb.String()
+}
+
+func buildText(t string) gedcom.Node {
+	d, err := gedcom.NewDocumentFromString(t)
+	if err != nil {
+		panic(err)
+	}
+	return d.Nodes()[0]
+}
+
+func runWide(r *vlib.Rec) {
+	for _, w := range []int{1, 30, 62, 63, 64, 65, 66, 127, 128, 129, 300} {
+		r.Eval()
+		r.Count("wide")
+		orig := wideText(w, []string{"NOTE dup", "NOTE dup"})
+		edited := wideText(w, []string{"NOTE dup", "NOTE changed"})
+		shorter := wideText(w, []string{"NOTE dup"})
+		// reversed copy
+		lines := strings.Split(strings.TrimSpace(orig), "\n")
+		rev := []string{lines[0]}
+		for i := len(lines) - 1; i >= 1; i-- {
+			rev = append(rev, lines[i])
+		}
+		reversed := strings.Join(rev, "\n") + "\n"
+		O, E, S, R := buildText(orig), buildText(edited), buildText(shorter), buildText(reversed)
+		k := kase{Sub: "wide", Arg: fmt.Sprint(w)}
+		if !gedcom.DeepEqual(O, R) || !gedcom.DeepEqual(R, O) {
+			r.Fail("wide:reordering-not-deep-equal", fmt.Sprintf("%d+2 siblings: not DeepEqual to the reversed copy", w), k)
+		}
+		if gedcom.DeepEqual(O, E) || gedcom.DeepEqual(E, O) {
+			r.Fail("wide:edit-not-detected", fmt.Sprintf("%d+2 siblings with a duplicate pair: changing one duplicate is not detected (O,E)=%v (E,O)=%v", w, gedcom.DeepEqual(O, E), gedcom.DeepEqual(E, O)), k)
+		}
+		if gedcom.DeepEqual(O, S) || gedcom.DeepEqual(S, O) {
+			r.Fail("wide:delete-not-detected", fmt.Sprintf("%d+2 siblings: deleting a duplicate is not detected", w), k)
+		}
+		C := gedcom.DeepCopy(O, gedcom.NewDocument())
+		if !gedcom.DeepEqual(O, C) || O.GEDCOMString(0) != C.GEDCOMString(0) {
+			r.Fail("wide:copy-differs", fmt.Sprintf("%d+2 siblings: deep copy differs", w), k)
+		}
+	}
+}
+
+// ---- copy-only space: every specialised node kind (the copy paths depend on the kind's constructor)
+var kindLabels = []string{"BAPM", "BIRT", "BURI", "DATE 1 Jan 1900", "DEAT Y", "EVEN x", "_FID ABCD-123", "_FSFTID ABCD-123", "FORM jpg", "LATI N18", "LONG W76", "MAP",
+	"NAME John /Smith/", "NICK Jo", "NOTE a", "FONE Jon", "PLAC Town", "RESI", "ROMN Jon", "SEX M", "SOUR @S1@", "TYPE t", "_UID EE13561DDB204985BFFDEEBF82A5226C5B2E", "OCCU x", "_CUSTOM y"}
+
+func runKinds(r *vlib.Rec, lo, hi int64, n int) {
+	shapes := gen.AllTrees(n)
+	per := gen.Pow(len(kindLabels), n)
+	for idx := lo; idx < hi; idx++ {
+		levels := shapes[idx/per]
+		ds := gen.Digits(idx%per, len(kindLabels), n)
+		var sb strings.Builder
+		for i, l := range levels {
+			fmt.Fprintf(&sb, "%d %s\n", l, kindLabels[ds[i]])
+			r.Count("kind:" + strings.Fields(kindLabels[ds[i]])[0])
+		}
+		text := sb.String()
+		r.Eval()
+		if n >= 2 {
+			r.Nontrivial("kinds|" + text)
+		}
+		T := buildText(text)
+		k := kase{Sub: "kinds", Arg: text}
+		for name, mk := range map[string]func() gedcom.Node{
+			"DeepCopy":        func() gedcom.Node { return gedcom.DeepCopy(T, gedcom.NewDocument()) },
+			"Filter-identity": func() gedcom.Node { return gedcom.Filter(T, gedcom.NewDocument(), func(n gedcom.Node) (gedcom.Node, bool) { return n, true }) },
+		} {
+			var C gedcom.Node
+			if p, msg, frame := vlib.Try(func() { C = mk() }); p {
+				r.Fail("copy-panics:"+name+":"+frame+":"+vlib.MsgClass(msg), msg+"\n"+text, k)
+				continue
+			}
+			if gedcom.IsNil(C) || C.GEDCOMString(0) != T.GEDCOMString(0) {
+				got := "<nil>"
+				if !gedcom.IsNil(C) {
+					got = C.GEDCOMString(0)
+				}
+				r.Fail("copy-serialises-differently:"+name, fmt.Sprintf("source:\n%scopy:\n%s", text, got), k)
+				continue
+			}
+			if !gedcom.DeepEqual(T, C) || !gedcom.DeepEqual(C, T) {
+				r.Fail("copy-not-deep-equal", name+" of\n"+text, k)
+			}
+			if gx.Dump(gedcom.Nodes{T}, true) != gx.Dump(gedcom.Nodes{C}, true) {
+				r.Fail("copy-changes-node-kind:"+name, fmt.Sprintf("source:\n%scopy:\n%s", gx.Dump(gedcom.Nodes{T}, true), gx.Dump(gedcom.Nodes{C}, true)), k)
+			}
+		}
+	}
+}
+
 func pairTreeCount(n int) int64 {
 	var c int64
 	for m := 1; m <= n; m++ {
@@ -564,6 +670,10 @@ func plan(tier string) []string {
 	// one node more over the reduced alphabet
 	out = append(out, vlib.Chunks(fmt.Sprintf("rtree:%d", N+1), int64(len(gen.AllTrees(N+1)))*gen.Pow(len(pairAlphabet), N+1), 600)...)
 	out = append(out, vlib.Chunks(fmt.Sprintf("pairs:%d", M), pairTreeCount(M), 60)...)
+	out = append(out, "wide:0:0:1")
+	for n := 1; n <= 3; n++ {
+		out = append(out, vlib.Chunks(fmt.Sprintf("kinds:%d", n), int64(len(gen.AllTrees(n)))*gen.Pow(len(kindLabels), n), 3000)...)
+	}
 	return out
 }
 
@@ -583,6 +693,25 @@ func replay(c json.RawMessage) (string, string) {
 			return "asymmetric:DeepEqualNodes", obs
 		}
 		return "", obs
+	}
+	if k.Sub == "wide" || k.Sub == "kinds" {
+		rr := vlib.NewReplayRec()
+		if k.Sub == "wide" {
+			runWide(rr)
+		} else {
+			// re-run the one tree
+			T := buildText(k.Arg)
+			C := gedcom.DeepCopy(T, gedcom.NewDocument())
+			if gedcom.IsNil(C) || C.GEDCOMString(0) != T.GEDCOMString(0) {
+				return "copy-serialises-differently:DeepCopy", k.Arg
+			}
+			F := gedcom.Filter(T, gedcom.NewDocument(), func(n gedcom.Node) (gedcom.Node, bool) { return n, true })
+			if gedcom.IsNil(F) || F.GEDCOMString(0) != T.GEDCOMString(0) {
+				return "copy-serialises-differently:Filter-identity", k.Arg
+			}
+			return "", "copies serialise identically: " + k.Arg
+		}
+		return strings.Join(rr.Signatures(), "\x1f"), "wide sibling lists"
 	}
 	fs := checkTree(k.Tree, k.Sub, func(string) {})
 	obs := "tree:\n" + k.Tree.text()
@@ -615,7 +744,7 @@ func main() {
 		Run:    run,
 		Replay: replay,
 		Required: func(string) []string {
-			req := []string{"copynode", "copy:DeepCopy", "copy:Filter-identity", "copy:decode-encode", "perm", "edit:insert", "edit:delete", "edit:change", "indep:AddNode", "indep:DeleteNode", "indep:SetNodes-nil", "pairs", "pairs:equal"}
+			req := []string{"wide", "kind:SEX", "kind:SOUR", "copynode", "copy:DeepCopy", "copy:Filter-identity", "copy:decode-encode", "perm", "edit:insert", "edit:delete", "edit:change", "indep:AddNode", "indep:DeleteNode", "indep:SetNodes-nil", "pairs", "pairs:equal"}
 			for _, l := range alphabet {
 				req = append(req, "label:"+l.Tag+" "+l.Value)
 			}
